@@ -40,6 +40,7 @@ type Val struct {
 	Binds   []Val
 	IterOf  *ssa.Range
 	Imm     *ImmElem
+	CellValue bool // T is the value of a snapshotted captured variable, not its address
 }
 
 // ImmElem: address of element i of an immutable byte-string-like slice value (net.IP, ...)
@@ -520,6 +521,7 @@ func verifyFunc(w *World, fn *ssa.Function, c *Contract) (res *FuncResult) {
 	ft := &FuncTr{w: w, fn: fn, c: c, d: d, vals: map[ssa.Value]Val{}, edges: map[*ssa.BasicBlock][]Edge{},
 		atBlk: map[*ssa.BasicBlock]*Term{}, names: map[string]int{}, params: map[string]SV{}, pureParams: map[string]bool{}}
 	ft.h = &HeapCtx{w: w, d: d, arrSorts: map[string]*Sort{}}
+	ft.h.emit = func(t *Term) { ft.assumeRaw(t) }
 	ft.overflow = c.Overflow
 	defer func() {
 		if r := recover(); r != nil {
@@ -889,6 +891,9 @@ func (ft *FuncTr) block(b *ssa.BasicBlock) error {
 			ks := ft.w.sortOf(ft.d, mt.Key())
 			st.iters[r] = ft.d.Fresh(fmt.Sprintf("visited_h%d", b.Index), SArray(ks, SBool))
 		}
+		for _, n := range sortedKeys(l.modArrays) {
+			ft.h.noteHavoc(st.heap[n], ft.h.nextID(st))
+		}
 		// locals typed as references: keep allocatedness
 		for a := range l.modLocals {
 			if a.Heap {
@@ -985,6 +990,13 @@ func (ft *FuncTr) val(v ssa.Value) Val {
 	case *ssa.Const:
 		return Val{T: ft.constVal(c)}
 	case *ssa.Function:
+		if con := ft.w.contractFor(calleeName(c)); con != nil && con.Denotes != nil && len(c.FreeVars) == 0 {
+			con.Used = true
+			env := &SpecEnv{h: ft.h, w: ft.w, pkg: ft.w.pkgOfFunc(c), vars: map[string]SV{}, st: ft.init, old: ft.init, qn: &ft.qn}
+			dv := env.tr(con.Denotes)
+			ft.w.assume("function values are identified with their behaviour (extensionality): " + shortFuncName(c) + " denotes " + con.DenotesText)
+			return Val{Fn: c, T: env.val(dv)}
+		}
 		return Val{Fn: c, T: ft.fnConst(c)}
 	case *ssa.Global:
 		obj, _ := c.Object().(*types.Var)
